@@ -182,8 +182,15 @@ PROPS["C15"] = {
     "assumptions": ["single-byte corruptions and truncations only", "three format-level / iterator-API findings are recorded as known findings and reported by KNOWN-FINDING lines"],
 }
 
-_db("C05", "Concurrent operations are linearizable", ["c05:", "c09:"],
-    "Lean 4 protocol proof + directed schedules through scheduling hooks + stress with per-key register check", "under construction", [], [], comps=("c05",))
+PROPS["C05"] = {
+    "level": "proof", "title": "Concurrent operations are linearizable: no lost, stale or phantom reads",
+    "lean_modules": ["Rain.Props.Proto", "Rain.Props.Lsm"], "components": ["c05"], "sig_prefixes": ["c05:", "c09:"],
+    "technique": "Lean 4 invariant proofs over the group-commit/read-cut protocol model for every interleaving and grouping (every acknowledged batch applied exactly once in sequence order, WAL before memtable, a reader's cut is stable under all later steps) and over the LSM model (flush, compaction, trivial move preserve every view) + directed schedules that park a real reader/writer/worker at every unlocked window while other threads run to completion + writer-trace tie (proto.write) + multi-thread stress with a per-key register history checker",
+    "level_text": "Machine-checked proofs: (1) protocol model of apply_changes / build_group_commit_batch / the published sequence number / read cuts, one step per critical section and one per unlocked shared access: C05_exactly_once_in_order, C05_wal_before_memtable, C05_memtable_contents, C05_cut_stable for every reachable state, i.e. every interleaving and every group-commit grouping; (2) LSM model: a cut (memtable, immutable memtable, version, sequence) keeps answering the same whatever flushes/compactions/moves/deletions complete afterwards (C01/C03 theorems, view preservation). Linearizability follows on the model: the linearization point of a write is the publication of its sequence number, of a read its cut. Tied to the code on every run by forcing the model's interleavings on the real database through the scheduling hooks: a get parked after releasing the mutex (and again before reading tables) while rotation, flush, version installation, compaction and file deletion run to completion; a writer parked before/after the WAL append and between memtable insertions while readers and other writers run; queued writers of sizes that do and do not fit the group cap (each acknowledged put must be in the WAL and the memtable exactly once, hook trace compared with the model); the worker parked while building a table, writing the manifest, in the compaction loop and before deleting files. A stress phase (many threads, tiny memtable) checks per-key register histories with invocation/response times. Not exhibited: interleavings finer than hook-to-hook segments, weak-memory effects.",
+    "design_ref": "5 (C05)",
+    "trusted_base": DB_TB + ["scheduling hooks sit at the boundaries of the unlocked windows; interleavings finer than hook-to-hook segments, data races inside the skip list and weak-memory effects of ArcSwap/atomics are not exhibited", "the register checker is sound (never alarms on a linearizable history) and complete for single-writer-per-key histories; keys written by several threads are checked for real-time order and membership only"],
+    "assumptions": ["parking_lot mutex gives mutual exclusion; ArcSwap load/store are atomic and sequentially consistent", "the concurrent skip list is linearizable per insertion (crate-level assumption)"],
+}
 PROPS["C06"] = {
     "level": "proof", "title": "No reader ever observes part of a batch",
     "lean_modules": ["Rain.Props.Proto"], "components": ["c06"], "sig_prefixes": ["c06:", "c09:"],
@@ -193,8 +200,15 @@ PROPS["C06"] = {
     "trusted_base": DB_TB + ["scheduling hooks sit at the boundaries of the unlocked windows; interleavings finer than hook-to-hook segments, data races inside the skip list and weak-memory effects of ArcSwap/atomics are not exhibited"],
     "assumptions": ["parking_lot mutex gives mutual exclusion; readers take their sequence number under the database mutex (as coded)", "memtable rotation never happens between two insertions of one group (it is done in make_room_for_write before the group is built)"],
 }
-_db("C09", "Every operation terminates; the background worker never dies", ["c09:"],
-    "Lean 4 termination/progress proofs + watchdog scenarios", "under construction", [], [], comps=("c09",))
+PROPS["C09"] = {
+    "level": "proof", "title": "Every operation terminates; the background worker never dies",
+    "lean_modules": ["Rain.Props.Proto", "Rain.Props.Lsm", "Rain.Props.C14"], "components": ["c09"], "sig_prefixes": ["c09:"],
+    "technique": "partial proof: Lean 4 progress theorem for the writer queue (a non-empty queue always has an enabled step: no deadlock of the hand-off protocol, C09_writer_progress), totality of every model function (kernel-checked structural/fuel termination of the log reader, block/table readers, merging and database iterators, compaction selection), LSM invariant preservation (the panicking layouts are unreachable) + watchdog scenarios on the real code (every public call under a deadline, every descriptor, sustained writes at the memtable-full / L0 slowdown / L0 stop thresholds, manual compactions, close with waiting writers and live iterators, panic hook on every raindb thread)",
+    "level_text": "PARTIAL. Proved for every reachable state of the protocol model: the writer hand-off cannot deadlock; every modelled read path is a total function (termination accepted by the kernel without partial/unsafe), and the LSM invariant excludes the layouts on which the worker's version builder panics. What a theorem over these models cannot exhibit - the condvar/flag protocol of the real background thread, lock re-entrancy, thread joins, panics - is decided by running the real code: every harness-issued call (all components) runs under a watchdog and a process-wide panic hook; the C09 component drives open/get/put/delete/apply/iterators/snapshots/compact_range/get_descriptor (every descriptor kind, every level argument)/close through directed scenarios (writers blocked on memtable-full and L0-stop while flushes complete, close while writers wait, close with live iterators and snapshots, empty-batch and oversized-batch writes, manual compaction of empty and full ranges) with thread counts and option draws varied per seed. Hangs or worker deaths found this way (D4, D12, D13) are repaired and their schedules kept as corpus.",
+    "design_ref": "5 (C09)",
+    "trusted_base": DB_TB + ["bounded time = the watchdog deadline (generous: seconds for calls that take milliseconds)", "the flag/condvar protocol of the background thread is exercised, not modelled: no theorem covers it"],
+    "assumptions": ["the filesystem makes progress (SimFs never blocks)"],
+}
 PROPS["C17"] = {
     "level": "proof", "title": "One owner at a time: a database cannot be opened or destroyed while open",
     "lean_modules": ["Rain.Props.Proto"], "components": ["c17"], "sig_prefixes": ["c17:"],
@@ -206,4 +220,4 @@ PROPS["C17"] = {
 }
 
 # properties whose check is registered in MANIFEST.json
-CLAIMED = ["C01", "C02", "C03", "C04", "C06", "C07", "C08", "C10", "C11", "C12", "C13", "C14", "C15", "C16", "C17"]
+CLAIMED = ["C01", "C02", "C03", "C04", "C05", "C06", "C07", "C08", "C09", "C10", "C11", "C12", "C13", "C14", "C15", "C16", "C17"]
